@@ -37,12 +37,13 @@ func c19Fields() []*XMLField {
 		{Number: 4, Name: "F4", Type: "CHAR"},
 		{Number: 5, Name: "F5", Type: "BOOLEAN"},
 		{Number: 6, Name: "F6", Type: "UTCTIMESTAMP"},
+		{Number: 7, Name: "F7", Type: "NUMINGROUP"},
 		{Number: 8, Name: "BeginString", Type: "STRING"},
 		{Number: 10, Name: "CheckSum", Type: "STRING"},
 	}
 }
 
-var c19Tag = map[string]int{"F1": 1, "F2": 2, "F3": 3, "F4": 4, "F5": 5, "F6": 6, "BeginString": 8, "CheckSum": 10}
+var c19Tag = map[string]int{"F1": 1, "F2": 2, "F3": 3, "F4": 4, "F5": 5, "F6": 6, "F7": 7, "BeginString": 8, "CheckSum": 10}
 
 // ---- independent oracle: a plain recursive walk over the XML structure
 
@@ -324,5 +325,54 @@ func VerifHarness_C19_siblings() {
 				verifAssert(f.Tag() == order[i], "component-fields-are-its-own-expansion")
 			}
 		}
+	}
+}
+
+func init() { verifRegister("C19_tworoutes", VerifHarness_C19_tworoutes) }
+
+// C19_tworoutes: a repeating group reachable by two routes with different member lists (once nested in another group
+// or directly, once more directly with more or fewer members): the message's tag set is still exactly what the walk
+// over the declaration reaches.
+func VerifHarness_C19_tworoutes() {
+	poor := c19Group("F7", "N", c19Field("F4", "Y"))
+	rich := c19Group("F7", "N", c19Field("F4", "Y"), c19Field("F5", "N"))
+	first, second := poor, rich
+	if ndBool("richer-first") {
+		first, second = rich, poor
+	}
+	var members []*XMLComponentMember
+	members = append(members, c19Field("F6", "Y"))
+	if ndBool("first-route-nested-in-a-group") {
+		verifCase("nested-then-direct")
+		members = append(members, c19Group("F3", "N", c19Field("F2", "Y"), first))
+	} else if ndBool("first-route-through-a-component") {
+		verifCase("component-then-direct")
+		members = append(members, c19Comp("A", "N"))
+	} else {
+		verifCase("direct-twice")
+		members = append(members, first)
+	}
+	members = append(members, second)
+	msg := &XMLComponent{Name: "M", MsgType: "D", Members: members}
+	a := &XMLComponent{Name: "A", Members: []*XMLComponentMember{c19Field("F1", "N"), first}}
+	doc := &XMLDoc{Type: "FIX", Major: "4", Minor: "4", Fields: c19Fields(), Components: []*XMLComponent{a}, Messages: []*XMLComponent{msg},
+		Header:  &XMLComponent{Name: "Header", Members: []*XMLComponentMember{c19Field("BeginString", "Y")}},
+		Trailer: &XMLComponent{Name: "Trailer", Members: []*XMLComponentMember{c19Field("CheckSum", "Y")}}}
+	dict, err := new(builder).build(doc)
+	verifAssert(err == nil && dict != nil, "well-formed-specification-loads")
+	if err != nil {
+		return
+	}
+	md := dict.Messages["D"]
+	verifAssert(md != nil, "message-defined")
+	if md == nil {
+		return
+	}
+	w := &c19Walk{doc: doc, tags: map[int]bool{}, required: map[int]bool{}}
+	var order []int
+	w.members(msg.Members, true, true, &order)
+	for t := 1; t <= 7; t++ {
+		_, inTags := md.Tags[t]
+		verifAssert(inTags == w.tags[t], "tags-are-exactly-the-reachable-fields")
 	}
 }
